@@ -249,10 +249,15 @@ def run(ctx):
                         "window timing: the virtual clock may advance while threads are runnable (superset of real timings, sound for safety)"]
     model_part(ctx)
     impl_part(ctx)
+    from checks import batcher_replay
+    batcher_replay.run_part(ctx)
 
 
 def replay(d):
     sc = d["replay"]
+    if sc.get("kind") == "batcher-replay":
+        from checks import batcher_replay
+        return batcher_replay.replay(d)
     if sc.get("kind") != "batcher":
         print(json.dumps(d, indent=1)[:5000])
         return 0
